@@ -61,3 +61,8 @@ PROPS["C15"] = dict(pkg="c15", shards=16, level="exploration",
     level_text="Exploration: generated consumer/producer pairs (identical, copied, rebuilt, one unconsumable mutation at any depth, one harmless mutation), the complete nil/non-nil bound matrix for five kinds (exhaustive), and recursive scopes; each pair evaluated 16 times in a supervised worker so that stack exhaustion is observed and map-order dependence shows.",
     level_note="Rejection is only asserted for the statement's sufficient reasons (one-directional on purpose); acceptance only for identical / copied / rebuilt producers; positions under an 'any' consumer are not mutated; a schema that cannot be rebuilt from its description is C09's concern and skipped here.",
     cap_s={"quick": 900, "thorough": 3000})
+
+PROPS["C12"] = dict(pkg="c12", shards=16, level="exploration",
+    technique="stateful property-based testing (rapid state machine over one schema instance); oracle = 12x repeated evaluation (map-order randomisation), deep-copy argument snapshots, self-description / GetDefaults snapshots and differential against a freshly built instance",
+    level_text="Exploration: generated call histories (Unserialize / Validate / Serialize / ValidateCompatibility with valid, hostile and default-filling arguments, in-place scrambling of returned values) on one schema instance; every call evaluated 12 times, arguments compared with deep copies, and after every step the instance compared with its own initial self-description and defaults and with a fresh instance on a probe set.",
+    level_note="Only error-ness and values are compared, never messages (messages list map keys in iteration order by design); totality of the calls is C04/C15's concern (panics are compared for consistency, not reported); recursive scopes are excluded from the schema-mode compatibility action (recorded C15 finding).")
